@@ -1,0 +1,23 @@
+//go:build verif
+
+package runtime
+
+// VerifScopeStat is a read-only view of one module's symbol stack, for the
+// verification harness (build tag "verif" only).
+type VerifScopeStat struct {
+	ModuleID int
+	Depth    int
+	Live     int
+}
+
+// VerifScopeStats reports (block depth, live symbols) of every module's scope.
+func (vm *VM) VerifScopeStats() []VerifScopeStat {
+	out := []VerifScopeStat{}
+	for id, sp := range vm.valueStack {
+		out = append(out, VerifScopeStat{ModuleID: id, Depth: sp.currentDepth, Live: sp.localCount})
+	}
+	return out
+}
+
+// VerifCallDepth reports the number of live call frames.
+func (vm *VM) VerifCallDepth() int { return vm.csCount }
